@@ -66,7 +66,7 @@ CASE_WALL_CAP = 120
 # helper -> (cases quick, cases thorough)
 N_CASES = {
     "S6PLL": (120, 1500), "S6DCM": (100, 1200), "S7PLL": (160, 2000), "S7MMCM": (160, 2000), "USPLL": (110, 1400), "USMMCM": (110, 1400),
-    "USPPLL": (110, 1400), "USPMMCM": (90, 1000), "ECP5PLL": (260, 2600), "iCE40PLL": (160, 2000), "NXPLL": (70, 700),
+    "USPPLL": (110, 1400), "USPMMCM": (90, 1000), "ECP5PLL": (260, 2600), "iCE40PLL": (160, 2000), "NXPLL": (110, 1100),
     "CycloneIVPLL": (40, 400), "CycloneVPLL": (40, 400), "Cyclone10LPPLL": (40, 400), "Max10PLL": (40, 400),
     "GW1NPLL": (200, 2400), "GW2APLL": (120, 1400), "GW5APLL": (16, 160), "TRIONPLL": (100, 1200), "GateMatePLL": (60, 700),
     "NXOSCA": (120, 1500), "GW1NOSC": (80, 1000),
@@ -555,6 +555,18 @@ def gen_request(col, name, rng):
     if fam == "GW1NPLL" and k > 1 and rng.random() < 0.5:
         rng.shuffle(outs)
         col.cov("boundary_kinds", "request:shuffled-order")
+    if len(outs) >= 2 and fam != "GW1NPLL" and rng.random() < 0.2:
+        # the same frequency asked for twice with different margins (e.g. a clock and its phase-shifted twin): each output has to
+        # meet its OWN margin; the looser one comes first in half of the cases
+        i, j = sorted(rng.sample(range(len(outs)), 2))
+        outs[j]["freq"] = outs[i]["freq"]
+        loose = max(outs[i]["margin"], outs[j]["margin"], 1e-3) * rng.choice([1, 3])
+        tight = loose / rng.choice([5, 10, 30])
+        outs[i]["margin"], outs[j]["margin"] = (loose, tight) if rng.random() < 0.5 else (tight, loose)
+        if rng.random() < 0.5:
+            # a frequency that the usual dividers only reach within the loose margin
+            outs[i]["freq"] = outs[j]["freq"] = outs[i]["freq"] * (1 + rng.choice([-1, 1]) * loose * rng.uniform(0.3, 0.9))
+        col.cov("boundary_kinds", "request:same-frequency-different-margins")
     extra = {}
     if fam == "ECP5PLL" and rng.random() < 0.15:
         extra["expose_dpa"] = True
